@@ -105,7 +105,20 @@ fn tls_conn(r: &mut Rng, ep: ((IpAddr, u16), (IpAddr, u16))) -> Conn {
     let mut seq = r.next() as u32;
     let kind;
     let mut stream: Vec<Vec<u8>> = vec![];
-    match r.below(8) {
+    let mut reuse_at: Option<usize> = None;
+    match r.below(9) {
+        8 => {
+            // two connections one after the other on the same 4-tuple: the first leaves an unfinished
+            // ClientHello behind, the second opens with its SYN
+            kind = "tls-reuse";
+            let h = net::client_hello(r);
+            let cut = r.range(5, h.len() as u64 - 1) as usize;
+            stream.extend(net::split_random(r, &h[..cut], 2));
+            reuse_at = Some(stream.len());
+            let h2 = net::client_hello(r);
+            let k = r.range(1, 3) as usize;
+            stream.extend(net::split_random(r, &h2, k));
+        }
         0 => {
             kind = "tls-nonhello";
             // a complete handshake record that is not a ClientHello, then a hello
@@ -159,7 +172,21 @@ fn tls_conn(r: &mut Rng, ep: ((IpAddr, u16), (IpAddr, u16))) -> Conn {
         segs.push(syn);
         seq = seq.wrapping_add(1);
     }
-    for p in stream {
+    for (pi, p) in stream.into_iter().enumerate() {
+        if reuse_at == Some(pi) {
+            seq = r.next() as u32;
+            let mut syn = Seg::new(c, s, SYN);
+            syn.seq = seq;
+            if r.chance(1, 4) {
+                // Fast Open: the SYN itself carries the first bytes
+                syn.payload = p.clone();
+                segs.push(syn);
+                seq = seq.wrapping_add(1).wrapping_add(p.len() as u32);
+                continue;
+            }
+            segs.push(syn);
+            seq = seq.wrapping_add(1);
+        }
         let mut g = Seg::new(c, s, ACK | PSH);
         g.seq = seq;
         seq = seq.wrapping_add(p.len() as u32);
@@ -247,6 +274,7 @@ fn emit_tls(ctx: &mut Ctx, conns: &[Conn], order: &[(usize, usize)], cap: usize)
         w_ep(l, &s.dst);
         l.bytes(&s.payload);
         l.bool(huginn_net_tls::tls_process::is_tls_traffic(&s.payload));
+        l.bool(s.flags & SYN != 0);
     });
     let out = format!("{}|{}|{}", inter.join(";"), inter.join(";"), iso.join("|"));
     ctx.emit(l.finish(&out));
@@ -271,7 +299,7 @@ fn http_step(cache: &mut HttpCache, procs: &huginn_net_http::http_process::HttpP
 
 pub fn http_conn(r: &mut Rng, ep: ((IpAddr, u16), (IpAddr, u16))) -> Conn {
     let (c, s) = ep;
-    let kind;
+    let kind: &'static str;
     let (req, resp) = match r.below(6) {
         0 | 1 => {
             kind = "http1";
@@ -297,6 +325,33 @@ pub fn http_conn(r: &mut Rng, ep: ((IpAddr, u16), (IpAddr, u16))) -> Conn {
         _ => r.next() as u32,
     };
     let isn_s = r.next() as u32;
+    let mut kind = kind;
+    if r.chance(1, 7) {
+        // an earlier connection on the same 4-tuple that left an unfinished request behind; the connection
+        // proper then opens with its own SYN (another ISN)
+        kind = "http-reuse";
+        let isn_old = isn_c.wrapping_add(1_000_000 + r.below(1000) as u32);
+        let mut syn = Seg::new(c, s, SYN);
+        syn.seq = isn_old;
+        segs.push(syn);
+        if r.chance(1, 2) {
+            let mut sa = Seg::new(s, c, SYN | ACK);
+            sa.seq = r.next() as u32;
+            segs.push(sa);
+        }
+        let old = net::http1_request(r);
+        let cut = r.range(1, old.len() as u64 - 1) as usize;
+        let mut g = Seg::new(c, s, ACK | PSH);
+        g.seq = isn_old.wrapping_add(1);
+        g.payload = old[..cut].to_vec();
+        segs.push(g);
+        if r.chance(1, 4) {
+            // the SYN of the connection proper is retransmitted
+            let mut syn = Seg::new(c, s, SYN);
+            syn.seq = isn_c;
+            segs.push(syn);
+        }
+    }
     let mut syn = Seg::new(c, s, SYN);
     syn.seq = isn_c;
     segs.push(syn);
